@@ -42,6 +42,9 @@ enum Ev {
     /// half a keep-alive period passes, then association a's outstation sends an unsolicited
     /// response (empty): reception counts as link activity
     Unsolicited(usize),
+    /// association a is removed from the channel and added again with the same address (run-time
+    /// reconfiguration); only when nothing of it is pending
+    ReAdd(usize),
 }
 
 #[derive(Clone, Debug, PartialEq)]
@@ -89,6 +92,9 @@ fn build_alphabet(n: usize, keep_alive: bool) -> Vec<Ev> {
     if keep_alive {
         v.push(Ev::Unsolicited(0));
     }
+    if n >= 2 && !keep_alive {
+        v.push(Ev::ReAdd(0));
+    }
     v
 }
 
@@ -123,7 +129,7 @@ impl C19 {
 
 impl Scenario for C19 {
     fn name(&self) -> String {
-        format!("assoc{}-keepalive{:?}-d{}", self.n, self.keep_alive, self.depth)
+        format!("assoc{}-keepalive{:?}-d{}{}", self.n, self.keep_alive, self.depth, if self.alphabet.len() == 4 { "-readd" } else { "" })
     }
     fn alphabet(&self) -> Vec<String> {
         self.alphabet.iter().map(|e| format!("{e:?}")).collect()
@@ -247,6 +253,27 @@ impl Scenario for C19 {
                         if let Work::Poll(p) = &o.work {
                             let per = m[o.a].polls[*p].period;
                             m[o.a].polls[*p].due = deadline + per;
+                        }
+                    }
+                }
+                Ev::ReAdd(a) => {
+                    let busy = out.as_ref().map(|o| o.a == *a).unwrap_or(false) || !m[*a].users.is_empty();
+                    if !busy {
+                        let mut ch = sim.channel.clone();
+                        let address = EndpointAddress::try_new(addr(*a)).unwrap();
+                        let removed = sim.call_now("remove", async move { ch.remove_association(address).await });
+                        if matches!(removed, Some(Ok(()))) {
+                            let mut c = AssociationConfig::quiet();
+                            c.response_timeout = Timeout::from_duration(Duration::from_millis(RT)).unwrap();
+                            c.keep_alive_timeout = self.keep_alive.map(Duration::from_millis);
+                            if let Some(h) = sim.add_association(addr(*a), c) {
+                                handles[*a] = h;
+                                poll_handles[*a].clear();
+                                m[*a] = AssocM { last_activity: sim.k.now_ms(), ..Default::default() };
+                                // the new association joins the ring behind the others: whoever is at the
+                                // front may be served once more before it, the turn history starts afresh
+                                last_served = None;
+                            }
                         }
                     }
                 }
@@ -482,10 +509,12 @@ impl Scenario for C19 {
 
 fn scenarios(tier: &str) -> Vec<C19> {
     let mk = |n: usize, keep_alive: Option<u64>, depth: usize| C19 { n, keep_alive, depth, alphabet: build_alphabet(n, keep_alive.is_some()) };
+    // run-time reconfiguration and turn-taking: a small alphabet, deep enough for several rounds
+    let readd = |depth: usize| C19 { n: 2, keep_alive: None, depth, alphabet: vec![Ev::ReAdd(0), Ev::Submit(0), Ev::Submit(1), Ev::Respond] };
     if tier == "quick" {
-        vec![mk(1, None, 5), mk(2, None, 5), mk(2, Some(4 * T), 5), mk(3, None, 4)]
+        vec![mk(1, None, 5), mk(2, None, 5), mk(2, Some(4 * T), 5), mk(3, None, 4), readd(9)]
     } else {
-        vec![mk(1, None, 7), mk(1, Some(4 * T), 7), mk(2, None, 6), mk(2, Some(4 * T), 6), mk(3, None, 6), mk(3, Some(4 * T), 5)]
+        vec![mk(1, None, 7), mk(1, Some(4 * T), 7), mk(2, None, 6), mk(2, Some(4 * T), 6), mk(3, None, 6), mk(3, Some(4 * T), 5), readd(11)]
     }
 }
 
@@ -506,7 +535,7 @@ pub fn check(tier: &str) -> i32 {
     }
     c.finish(
         "model_checking",
-        "1..3 associations on one channel, keep-alive off / 4T, every history up to depth 4-5 (5-7 thorough) over 9-13 events (submit a user READ or command on association a, add a poll with period kT, demand a poll, prompt reply, reply 1 ms before the response timeout, no reply, advance to 1 ms before / exactly the earliest deadline the monitor predicts, an unsolicited fragment received half a keep-alive period into the silence) on the real MasterTask with a virtual clock; the monitor checks every request written: at most one outstanding per channel, user requests in submission order and ahead of the polls of every association on the channel, polls never before completion + period and written as soon as they are due on an idle channel, associations with waiting user requests take turns, link status requests only after the keep-alive silence, the master future is not polled while the clock advances to 1 ms before the earliest deadline and at most 200 times per event; non-trivial = at least two requests were written; distinct = distinct observation trace",
+        "1..3 associations on one channel, keep-alive off / 4T, every history up to depth 4-5 (5-7 thorough) over 9-13 events (submit a user READ or command on association a, add a poll with period kT, demand a poll, prompt reply, reply 1 ms before the response timeout, no reply, advance to 1 ms before / exactly the earliest deadline the monitor predicts, an unsolicited fragment received half a keep-alive period into the silence, an association removed and added again with the same address) on the real MasterTask with a virtual clock; the monitor checks every request written: at most one outstanding per channel, user requests in submission order and ahead of the polls of every association on the channel, polls never before completion + period and written as soon as they are due on an idle channel, associations with waiting user requests take turns, link status requests only after the keep-alive silence, the master future is not polled while the clock advances to 1 ms before the earliest deadline and at most 200 times per event; non-trivial = at least two requests were written; distinct = distinct observation trace",
         &["start-up tasks are off here (their ordering is C17's subject)", "T = 2 s, response timeout 1 s"],
         serde_json::json!({}),
     )
